@@ -249,7 +249,7 @@ def judge_regions(selected, table):
     if not isinstance(bits, int) or isinstance(bits, bool) or not 0 <= bits < 2**63:
         v.append(('regions-bitset-outside-signed-bigint', f'bit set {bits!r}'))
     if back is None or sorted(back) != sorted(set(selected)):
-        v.append(('regions-not-recovered', f'selected {sorted(selected)} stored as {bits} read back as {back}'))
+        v.append(('regions-not-recovered', f'selected {list(selected)} stored as {bits} read back as {back}'))
     return v
 
 
@@ -262,7 +262,12 @@ def _region_chunk(arg):
     bitsets = set()
     for s in region_subsets(kind, names):
         n += 1
-        for order in ((s,) if len(s) < 2 else (s, tuple(reversed(s)))):
+        # a job's `regions` is a list the validator does not de-duplicate: also name a region twice
+        orders = [s] if len(s) < 2 else [s, tuple(reversed(s))]
+        orders.append(tuple(s) + (s[0],))
+        if len(s) > 1:
+            orders.append((s[-1],) + tuple(s) + (s[-1],))
+        for order in orders:
             for sig, msg in judge_regions(order, table):
                 key = (len(table), len(order), [table[x] for x in order])
                 if sig not in viol or key < viol[sig][0]:
